@@ -101,6 +101,20 @@ def mutate_framework(S, m):
         set_cell(P, "foi", "Function", "beta*inf/max(alive,1) + ghost")
     elif m == "undefined_characteristic_component":
         set_cell(S["Characteristics"], "alive", "Components", "sus, inf, rcv, ghost")
+    elif m == "cyclic_characteristics":
+        S["Characteristics"].append(["c1", "Circular one", "c2, sus", None, None, 0, None])
+        S["Characteristics"].append(["c2", "Circular two", "c1, inf", None, None, 0, None])
+    elif m == "junction_cycle":
+        S["Compartments"].append(["jn2", "Second junction", "n", "n", "y", 0, None, None])
+        T[0].append("jn2")
+        for r in T[1:]:
+            r.append(">" if r[0] == "jn" else None)
+        row = ["jn2"] + [None] * (len(T[0]) - 1)
+        row[tcol("jn")] = ">"
+        row[tcol("rcv")] = "split1"
+        T.append(row)
+    elif m == "residual_from_ordinary_compartment":
+        trow("sus")[tcol("rcv")] = ">"
     elif m in ("add_residual_outflow", "two_residual_outflows"):
         trow("jn")[tcol("sus")] = ">"
         if m == "two_residual_outflows":
@@ -259,6 +273,10 @@ def mutate_progbook(pg, m):
     elif m == "progbook_duplicate_program":
         r, c = find(T, "P2")[0]
         T.cell(r, c).value = "P1"
+    elif m == "progbook_duplicate_program_everywhere":
+        for ws in (T, Sp, E):
+            for (r, c) in find(ws, "P2"):
+                ws.cell(r, c).value = "P1"
     elif m == "progbook_reserved_program_name":
         for ws in (T, Sp, E):
             for (r, c) in find(ws, "P2"):
